@@ -9,6 +9,7 @@
   correspondence run); unforgeability of ECDSA; collision resistance of SHA3.
 -/
 import Goloop.Proofs.C13
+import Goloop.Model.C12
 namespace Goloop.C13
 open Goloop.C13.Proofs
 
@@ -164,6 +165,25 @@ theorem txVerify_dataOk_false (rc : Bytes → Bytes → Option Bytes) (H : Bytes
   split
   · rfl
   · split <;> rfl
+
+/-- A transaction whose id cannot be computed never verifies: `TxHash()` yields the EMPTY id
+    when `calcHash` fails (model: `C12.txID` = `[]`), and `RecoverPublicKey` refuses an empty
+    hash.  (With a non-empty placeholder id, e.g. 32 zero bytes, the signature
+    (P.x, P.x, parity P.y) built from the sender's PUBLIC key would recover P.) -/
+theorem unhashable_never_verifies (rc : Bytes → Bytes → Option Bytes) (H : Bytes → Bytes)
+    (e : C12.Env) (tx : C12.TxV3) (hc : tx.txHash = none) (hf : C12.calcHash e tx = none)
+    (value : Option Int) (stepLimit : Int) (dataOk : Bool) (sig : Option Bytes) (from_ : Bytes) :
+    C12.txID e tx = [] ∧
+    txVerify rc H value stepLimit dataOk sig (C12.txID e tx) from_ = false := by
+  have hid : C12.txID e tx = [] := by simp [C12.txID, hc, hf]
+  refine ⟨hid, ?_⟩
+  cases h : txVerify rc H value stepLimit dataOk sig (C12.txID e tx) from_ with
+  | false => rfl
+  | true =>
+    obtain ⟨_, s, pk, _, _, hpos, _⟩ :=
+      txVerify_ok_implies_signature rc H value stepLimit dataOk sig _ from_ h
+    rw [hid] at hpos
+    simp at hpos
 
 /-! ### 3. sign, recover, verify: the algebra -/
 
